@@ -35,4 +35,20 @@ def unixTime (sec nsec : Int64) : Int := sec.toInt * 1000000000 + nsec.toInt
 def shl64 (x : Int64) (c : Nat) : Int64 := x <<< Int64.ofNat c
 def shr64 (x : Int64) (c : Nat) : Int64 := x >>> Int64.ofNat c
 
+/-- `len(s)` (Go's `int` is 64 bits wide) -/
+def len {α : Type} (s : List α) : Int64 := Int64.ofNat s.length
+
+/-- `s[i]` with Go's bounds check made explicit: `none` = run-time panic (index out of range) -/
+def idx? (s : List Int64) (i : Int64) : Option Int64 :=
+  if 0 ≤ i.toInt ∧ i.toInt < s.length then s[i.toInt.toNat]? else none
+
+/-- `slices.Sort` on a slice of int64: the sorted permutation (insertion sort; the sorted
+    permutation of a list of integers is unique, so any correct sort returns the same slice) -/
+def insertI64 (a : Int64) : List Int64 → List Int64
+  | [] => [a]
+  | b :: l => if a.toInt ≤ b.toInt then a :: b :: l else b :: insertI64 a l
+def sortI64 : List Int64 → List Int64
+  | [] => []
+  | a :: l => insertI64 a (sortI64 l)
+
 end ScionTime.Go
